@@ -269,11 +269,101 @@ def gen_composite_case(rng):
     return "cmuxsplit %s %s %s" % (kind, head, " ".join(fmt_rats(l) for l in src))
 
 
+def q_sqrt(x):
+    """the deterministic rational square root of harness/common/exact_q.hpp"""
+    import math
+    n, d = x.numerator, x.denominator
+    return Fraction(math.isqrt(n * d << 80), d << 40)
+
+
+def gen_mats(rng, maps):
+    mats = []
+    for m in maps:
+        n = len(m)
+        rows = []
+        for i in range(n):
+            cols = sorted(rng.sample(range(n), min(n, rng.randint(1 if i == 0 else 0, 3))))
+            if rng.random() < 0.5 and i not in cols:
+                cols = sorted(cols + [i])
+            rows.append(" ".join([str(len(cols))] + ["%d %s" % (c, vlib.frac_str(rand_rat(rng, small=True))) for c in cols]))
+        mats.append(" ".join([str(n)] + rows))
+    return mats
+
+
+def gen_global_case(rng):
+    """more of the Global layer: norms, reductions, Global::Vector arithmetic, apply(r,x,y,alpha), diag/lump, filters"""
+    k = rng.random()
+    if k < 0.06:
+        l = [rand_rat(rng) for _ in range(rng.randint(1, 8))]
+        return "gred %s" % fmt_rats(l)
+    bs = rng.choice([1, 1, 2, 3])
+    while True:
+        G, maps, nbrs = gen_decomp(rng)
+        if all(len(m) > 0 for m in maps):
+            break
+    if k < 0.14:
+        # base splitter: root mirror = a permutation of the patch DOFs, patch mirror = the same DOFs in the base vector
+        rms, bms = [], []
+        for m in maps:
+            rm = list(range(len(m)))
+            if rng.random() < 0.5:
+                rng.shuffle(rm)
+            rms.append(rm)
+            bms.append([m[j] for j in rm])
+        head = "%s %d %s %s" % (fmt_decomp(G, maps, nbrs), G, " ".join(fmt_list(x) for x in rms), " ".join(fmt_list(x) for x in bms))
+        if rng.random() < 0.5:
+            if rng.random() < 0.6:
+                X = [rand_rat(rng) for _ in range(G)]
+                vs = [[X[g] for g in m] for m in maps]
+            else:
+                vs = [[rand_rat(rng) for _ in m] for m in maps]
+            return "spljoin %s %s" % (head, " ".join(fmt_rats(v) for v in vs))
+        return "splsplit %s %s" % (head, fmt_rats([rand_rat(rng) for _ in range(G)]))
+    P = len(maps)
+    D = fmt_decomp(G, maps, nbrs)
+    ords = " ".join(fmt_list(o) for o in gen_orders(rng, nbrs))
+
+    def type1(b):
+        X = [[rand_rat(rng) for _ in range(b)] for _ in range(G)]
+        return [[X[g][c] for g in m for c in range(b)] for m in maps]
+    if k < 0.24:
+        return "norm %d %s %s" % (bs, D, " ".join(fmt_rats(v) for v in type1(bs)))
+    if k < 0.34:
+        return "vmax %d %s %s" % (bs, D, " ".join(fmt_rats(v) for v in type1(bs)))
+    if k < 0.52:
+        mode = rng.randrange(2)
+        if mode == 0 or rng.random() < 0.5:
+            ys, xs = type1(bs), type1(bs)
+        else:
+            ys = [[rand_rat(rng) for _ in range(len(m) * bs)] for m in maps]
+            xs = [[rand_rat(rng) for _ in range(len(m) * bs)] for m in maps]
+        return "vops %d %d %s %s %s %s %s %s" % (bs, mode, vlib.frac_str(rand_rat(rng)), vlib.frac_str(rand_rat(rng)), D, ords,
+                                                " ".join(fmt_rats(v) for v in ys), " ".join(fmt_rats(v) for v in xs))
+    if k < 0.72:
+        return "gapply2 %s %s %s %s %s %s" % (vlib.frac_str(rand_rat(rng)), D, ords, " ".join(gen_mats(rng, maps)),
+                                              " ".join(fmt_rats(v) for v in type1(1)), " ".join(fmt_rats(v) for v in type1(1)))
+    if k < 0.86:
+        return "gdiag %d %s %s %s" % (rng.randrange(2), D, ords, " ".join(gen_mats(rng, maps)))
+    # unit filter on a global Dirichlet set (interface DOFs included with high probability)
+    cnt = [sum(1 for m in maps if g in m) for g in range(G)]
+    dset = {g: rand_rat(rng) for g in range(G) if rng.random() < (0.7 if cnt[g] > 1 else 0.25)}
+    fs = []
+    for m in maps:
+        f = [(i, dset[g]) for i, g in enumerate(m) if g in dset]
+        rng.shuffle(f)
+        fs.append(" ".join([str(len(f))] + ["%d %s" % (i, vlib.frac_str(a)) for i, a in f]))
+    return "gfilter %d %s %s %s" % (rng.randrange(2), D, " ".join(fs), " ".join(fmt_rats(v) for v in type1(1)))
+
+
 def gen_cases(rng, count):
     cases = []
     for _ in range(count):
-        if rng.random() < 0.3:
+        kk = rng.random()
+        if kk < 0.27:
             cases.append(gen_composite_case(rng))
+            continue
+        if kk < 0.5:
+            cases.append(gen_global_case(rng))
             continue
         k = rng.random()
         bs = rng.choice([1, 1, 1, 2, 3])
@@ -282,6 +372,11 @@ def gen_cases(rng, count):
             size = rng.randint(0, 6)
             nidx = rng.randint(0, 5) if size > 0 else 0
             mir = [rng.randrange(size) for _ in range(nidx)]
+            if size > 0:      # explicit index patterns: first / last block, both, duplicates, everything reversed
+                pat = rng.randrange(8)
+                mir = {0: [0], 1: [size - 1], 2: [0, size - 1], 3: [size - 1] * 3, 4: list(range(size - 1, -1, -1)),
+                       5: [0, 0, size - 1, 0]}.get(pat, mir)
+                nidx = len(mir)
             boff = rng.choice([0, 0, 1, 2])
             blen = max(0, boff + bs * nidx + rng.choice([0, 0, 0, 1, 3, -1]))
             vsize = size if rng.random() < 0.85 else size + rng.choice([1, 2])
@@ -526,12 +621,172 @@ def composite_oracle(op, c, out):
     return None
 
 
+def global_oracle(op, c, out):
+    if op == "gred":
+        l = c.rats()
+        exp = [sum(l), min(l), max(l), q_sqrt(sum(x * x for x in l))]
+        if is_abnormal(out):
+            return "scalar reduction ended with " + out
+        o = Tk(out)
+        if o.tok() != "R":
+            raise ValueError("tag")
+        got = [vlib.parse_frac(o.tok()) for _ in range(4)]
+        return None if got == exp else "Gate::sum/min/max/norm2 = %s, expected %s" % (got, exp)
+    if op in ("spljoin", "splsplit"):
+        G, maps, nbrs = c.decomp()
+        P = len(maps)
+        nb = c.nat()
+        rms = [c.lst() for _ in range(P)]
+        bms = [c.lst() for _ in range(P)]
+        if not decomp_wf(G, maps, nbrs) or nb != G or any(sorted(rms[r]) != list(range(len(maps[r]))) or
+                                                         bms[r] != [maps[r][j] for j in rms[r]] for r in range(P)):
+            return None
+        if is_abnormal(out):
+            return "%s on a consistent decomposition ended with %s" % (op, out)
+        if op == "spljoin":
+            vs = [c.rats() for _ in range(P)]
+            res = read_vecs_out(out, "B", [G])[0]
+            for g in range(G):
+                cc = [vs[r][maps[r].index(g)] for r in range(P) if g in maps[r]]
+                exp = sum(cc) / len(cc) if cc else Fraction(0)     # the common value of a type-1 vector, exactly once
+                if res[g] != exp:
+                    return "splitter join: base dof %d = %s, expected %s from %d patches" % (g, res[g], exp, len(cc))
+            return None
+        base = c.rats()
+        res = read_vecs_out(out, "V", [len(m) for m in maps])
+        for r in range(P):
+            if res[r] != [base[g] for g in maps[r]]:
+                return "splitter split: patch %d = %s, restriction of the base vector is %s" % (r, res[r][:8], [base[g] for g in maps[r]][:8])
+        return None
+    bs = 1
+    if op in ("norm", "vmax", "vops"):
+        bs = c.nat()
+    if op == "vops":
+        mode, a, b = c.nat(), vlib.parse_frac(c.tok()), vlib.parse_frac(c.tok())
+    if op == "gapply2":
+        alpha = vlib.parse_frac(c.tok())
+    if op in ("gdiag", "gfilter"):
+        flag = c.nat()
+    G, maps, nbrs = c.decomp()
+    P = len(maps)
+    if not decomp_wf(G, maps, nbrs):
+        return None
+    if is_abnormal(out):
+        return "%s on a consistent decomposition ended with %s" % (op, out)
+    sharers = [[r for r in range(P) if g in maps[r]] for g in range(G)]
+    sizes = [len(m) * bs for m in maps]
+
+    def glob(vs, b=bs):
+        X = {}
+        for r in range(P):
+            for i, g in enumerate(maps[r]):
+                for k in range(b):
+                    if X.setdefault((g, k), vs[r][i * b + k]) != vs[r][i * b + k]:
+                        return None
+        return X
+    if op in ("norm", "vmax"):
+        xs = [c.rats() for _ in range(P)]
+        X = glob(xs)
+        if X is None:
+            return None
+        o = Tk(out)
+        if op == "norm":
+            sq = sum(v * v for v in X.values())
+            if o.tok() != "N":
+                raise ValueError("tag")
+            got = [vlib.parse_frac(o.tok()), vlib.parse_frac(o.tok())]
+            return None if got == [sq, q_sqrt(sq)] else "norm2sqr/norm2 = %s, undecomposed vector gives %s" % (got, [sq, q_sqrt(sq)])
+        vals = list(X.values())
+        exp = [max(abs(v) for v in vals), min(abs(v) for v in vals), max(vals), min(vals)]
+        if o.tok() != "M":
+            raise ValueError("tag")
+        got = [vlib.parse_frac(o.tok()) for _ in range(4)]
+        return None if got == exp else "max_abs/min_abs/max/min = %s, undecomposed vector gives %s" % (got, exp)
+    if op == "vops":
+        for _ in range(P):
+            c.lst()
+        ys = [c.rats() for _ in range(P)]
+        xs = [c.rats() for _ in range(P)]
+        loc = [[b * (y + a * x) for y, x in zip(ys[r], xs[r])] for r in range(P)]
+        res = read_vecs_out(out, "V", sizes)
+        for r in range(P):
+            for i, g in enumerate(maps[r]):
+                for k in range(bs):
+                    if mode == 0:
+                        exp = loc[r][i * bs + k]
+                    else:
+                        cc = [loc[s][maps[s].index(g) * bs + k] for s in sharers[g]]
+                        exp = sum(cc) / len(cc)
+                    if res[r][i * bs + k] != exp:
+                        return "Global::Vector copy/axpy/scale%s: patch %d dof %d = %s, expected %s" % (
+                            "/sync_1" if mode else "", r, i, res[r][i * bs + k], exp)
+        return None
+    if op in ("gapply2", "gdiag"):
+        for _ in range(P):
+            c.lst()
+        A = {}
+        for r in range(P):
+            nrows = c.nat()
+            for i in range(nrows):
+                for _ in range(c.nat()):
+                    col, av = c.nat(), vlib.parse_frac(c.tok())
+                    key = (maps[r][i], maps[r][col])
+                    A[key] = A.get(key, 0) + av
+        res_exp = {}
+        if op == "gapply2":
+            X, Y = glob([c.rats() for _ in range(P)], 1), None
+            Y = glob([c.rats() for _ in range(P)], 1)
+            if X is None or Y is None:
+                return None
+            for g in range(G):
+                res_exp[g] = Y.get((g, 0), 0)
+            for (gi, gj), av in A.items():
+                res_exp[gi] += alpha * av * X[(gj, 0)]
+        else:
+            for g in range(G):
+                res_exp[g] = Fraction(0)
+            for (gi, gj), av in A.items():
+                if flag != 0 or gi == gj:
+                    res_exp[gi] += av
+        res = read_vecs_out(out, "V", sizes)
+        for r in range(P):
+            for i, g in enumerate(maps[r]):
+                if res[r][i] != res_exp[g]:
+                    return "%s: patch %d dof %d = %s, undecomposed operator gives %s" % (op, r, i, res[r][i], res_exp[g])
+        return None
+    if op == "gfilter":
+        fs = []
+        for r in range(P):
+            fs.append([(c.nat(), vlib.parse_frac(c.tok())) for _ in range(c.nat())])
+        vs = [c.rats() for _ in range(P)]
+        res = read_vecs_out(out, "V", sizes)
+        for r in range(P):
+            exp = list(vs[r])
+            for i, av in fs[r]:
+                exp[i] = Fraction(0) if flag else av
+            if res[r] != exp:
+                return "unit filter on patch %d: %s, expected %s" % (r, res[r][:8], exp[:8])
+        # a consistent filter keeps a consistent vector consistent
+        gl = {}
+        for r in range(P):
+            for i, av in fs[r]:
+                if gl.setdefault(maps[r][i], av) != av:
+                    return None
+        if all(set(g for g in maps[r] if g in gl) == set(maps[r][i] for i, _ in fs[r]) for r in range(P)) and glob(vs, 1) is not None:
+            if glob(res, 1) is None:
+                return "consistently filtered type-1 vector is no longer consistent"
+        return None
+    return None
+
+
 def oracle(case, out):
     c = Tk(case)
     op = c.tok()
     try:
         if op in ("csync0", "csync1", "cdot", "cmuxjoin", "cmuxsplit"):
             return composite_oracle(op, c, out)
+        if op in ("gred", "norm", "vmax", "vops", "gapply2", "gdiag", "gfilter", "spljoin", "splsplit"):
+            return global_oracle(op, c, out)
         if op in ("mgather", "mscatter"):
             bs, size, mir = c.nat(), c.nat(), c.lst()
             alpha = vlib.parse_frac(c.tok()) if op == "mscatter" else None
@@ -642,7 +897,18 @@ def _shape(case):
     if op in ("mgather", "mscatter"):
         bs, size, mir = c.nat(), c.nat(), c.lst()
         return op, bs, None, len(mir), None
-    bs = 1 if op == "gapply" else c.nat()
+    if op == "gred":
+        return op, 1, None, c.nat(), None
+    bs = 1 if op in ("gapply", "gapply2", "gdiag", "gfilter", "spljoin", "splsplit") else c.nat()
+    if op == "vops":
+        c.nat(), c.tok(), c.tok()
+    if op == "gapply2":
+        bs = 1
+        c.p -= 0
+    if op in ("gdiag", "gfilter"):
+        c.nat()
+    if op == "gapply2":
+        c.tok()
     G, maps, nbrs = c.decomp()
     cnt = [0] * G
     for m in maps:
@@ -758,9 +1024,12 @@ def run_one_mpi(binary, case, timeout):
         cmd.append("--solve")
     if parti != "auto":
         cmd += ["--parti-type", parti]
+    if len(lv.split("_")) == 2:
+        cmd.append("--splitter")     # base levels (needed by the base splitter) can be kept for single-layer runs only
     env = dict(os.environ)
     env["FEAT_VERIF_H3_SEED"] = str(h3)
     env["OMPI_MCA_rmaps_base_oversubscribe"] = "1"
+    env["OMPI_MCA_mpi_yield_when_idle"] = "1"
     try:
         r = subprocess.run(cmd, stdout=subprocess.PIPE, stderr=subprocess.PIPE, env=env, timeout=timeout)
     except subprocess.TimeoutExpired:
@@ -808,7 +1077,7 @@ def parse_mpi_out(out):
     return {t[i]: t[i + 1] for i in range(1, len(t) - 1, 2)}
 
 
-TOL = {"t_b_nrm": 1e-14, "t_rhs_nrm": 1e-12, "t_def_init": 1e-12, "t_Axpy_w2": 1e-12, "t_sol_nrm": 1e-7, "t_sol_w1": 1e-7,
+TOL = {"t_gate_sum_freq": 1e-12, "t_gate_norm2": 1e-12, "t_gate_norm2_ref": 1e-12, "t_b_nrm": 1e-14, "t_rhs_nrm": 1e-12, "t_def_init": 1e-12, "t_Axpy_w2": 1e-12, "t_sol_nrm": 1e-7, "t_sol_w1": 1e-7,
        "t_err_h0": 1e-6, "t_err_h1": 1e-6}
 
 
@@ -843,12 +1112,23 @@ def make_mpi_oracle(results):
                 fa, fb = float.fromhex(a), float.fromhex(b)
                 if not abs(fa - fb) <= TOL[k] * max(abs(fa), abs(fb)):
                     return "%s: %r on %d ranks, %r on one process (rel. tolerance %g)" % (k, fa, n, fb, TOL[k])
+            elif k.startswith("z_"):
+                # relative defects of identities that hold exactly in exact arithmetic (prol reproduces the interpolant of a
+                # multilinear function, rest is the adjoint of prol w.r.t. Gate::dot)
+                if not float.fromhex(a) <= 1e-11:
+                    return "%s = %r on %d ranks (should vanish up to rounding)" % (k, float.fromhex(a), n)
             elif k == "t_s1_idem":
                 if not float.fromhex(a) <= 1e-13:
                     return "sync_1 of a synchronised vector changed it by %r (relative)" % float.fromhex(a)
             elif k == "s_status":
                 if a != "ok":
                     return "solver status " + a
+        if "t_gate_norm2" in o:
+            fa, fb = float.fromhex(o["t_gate_norm2"]), float.fromhex(o["t_gate_norm2_ref"])
+            if not abs(fa - fb) <= 1e-12 * abs(fb):
+                return "Gate::norm2 of the local norms %r differs from Global::Vector::norm2 %r" % (fa, fb)
+            if not abs(float.fromhex(o["t_gate_sum_freq"]) - int(o["ndofs"])) <= 1e-9 * int(o["ndofs"]):
+                return "sum of all frequencies %r is not the number of global DOFs %s" % (float.fromhex(o["t_gate_sum_freq"]), o["ndofs"])
         if "u_res_true" in o:
             if not float.fromhex(o["u_res_true"]) <= 1e-6 * float.fromhex(o["t_def_init"]):
                 return "true residual %r not reduced (initial %r)" % (float.fromhex(o["u_res_true"]), float.fromhex(o["t_def_init"]))
@@ -909,18 +1189,19 @@ def main(argv):
         jpath = os.path.join(vlib.BUILD, "tmp", "c13-mpi-%d.json" % os.getpid())
         with open(jpath, "w") as f:
             json.dump(results, f)
-        orders, share3, exact_keys, muxers = 0, 0, 0, 0
+        orders, share3, exact_keys, muxers, transfers = 0, 0, 0, 0, 0
         for c, o in results.items():
             try:
                 d = parse_mpi_out(o)
                 orders += int(d["h3_orders"])
                 muxers += int(d.get("p_mux3_used", 0))
+                transfers += int(d.get("p_transfers", 0)) if int(d["nranks"]) > 1 else 0
                 share3 += 1 if (int(d["nranks"]) >= 3 and int(d["p_share3"]) > 0) else 0
                 exact_keys += sum(1 for k in d if k.startswith("x_")) if int(d["nranks"]) > 1 else 0
             except (ValueError, KeyError):
                 pass
         extra.update({"h3_hook_compiled_in": hook, "h3_distinct_processing_orders": orders,
-                      "mpi_runs": len(results), "mpi_tuple3_muxers_exercised": muxers, "mpi_runs_with_dof_shared_by_3_ranks": share3,
+                      "mpi_runs": len(results), "mpi_tuple3_muxers_exercised": muxers, "mpi_transfer_level_pairs": transfers, "mpi_runs_with_dof_shared_by_3_ranks": share3,
                       "mpi_bit_exact_comparisons": exact_keys,
                       "mpi_process_counts": sorted({int(c.split()[5]) for c in results})})
 
